@@ -460,12 +460,52 @@ class Tracer:
                 if mode == "wrap" and fp2 and fp2[0] == "0":
                     fp2 = fp2[1:]
                 return self._op_next(bd, bb, n, t.args[ai], fp2)
+            pt = self._pass_through(bd, bb, n, t, fp) if t.kind == "call" else None
+            if pt is not None:
+                return pt
             return [Origin("call", bd, term=t, fpath=fp)]
         if site[0] == "m":
             _, bb, ai = site
             t = bd.blocks[bb].term
             return [Origin("mutated", bd, term=t, detail=ai, fpath=fp)]
         return [Origin("unknown", bd, detail=str(site))]
+
+    def _pass_through(self, bd, bb, n, t, fp):
+        """A crate function that hands one of its own arguments back (a checking helper: `fn verified(fd) -> Result<Fd>`):
+        when *every* origin of the requested part of its return value is one of its parameters, the call is
+        transparent and the origin is the corresponding argument."""
+        callee = t.resolved if t.resolved and self.facts.has(t.resolved) else (t.callee if t.callee and self.facts.has(t.callee) else None)
+        if callee is None or not fp:
+            return None
+        stack = getattr(self, "_pt_stack", None)
+        if stack is None:
+            stack = self._pt_stack = []
+        if callee in stack or len(stack) > 2:
+            return None
+        cb = self.facts.body(callee)
+        if cb.kind not in ("fn", "assoc_fn") or cb is bd:
+            return None
+        key = (callee, tuple(fp), tuple(hint_of(e) for e in fp))
+        cache = getattr(self, "_pt_cache", None)
+        if cache is None:
+            cache = self._pt_cache = {}
+        if key not in cache:
+            stack.append(callee)
+            try:
+                ro = self.return_origins(cb, fp)
+            finally:
+                stack.pop()
+            ok = bool(ro) and all(o.kind == "param" and o.body is cb and isinstance(o.detail, int) and o.detail <= len(t.args) for o in ro)
+            cache[key] = [(o.detail, tuple(o.fpath)) for o in ro] if ok else None
+        summ = cache[key]
+        if not summ:
+            return None
+        res = []
+        for (pi, pfp) in summ:
+            if pi - 1 >= len(t.args):
+                return None
+            res.extend(self._op_next(bd, bb, n, t.args[pi - 1], pfp))
+        return res
 
     def return_origins(self, body, fp=()):
         cfg = cfg_of(body)
